@@ -835,6 +835,11 @@ class Crystal(object):
             # reconstruct `t` as a rational vector; if fail, kick out
             T = np.around(M*t).astype(int)
             if not self.__isclose__(t, T/M): continue
+            # t becomes the new first cell vector below, in place of a_m (m = index of the smallest non-zero T):
+            # that only spans the same lattice if |T_m| divides M and every other T_i; else try the next translation
+            T = (T + M//2) % M - M//2
+            Tmin = min(abs(v) for v in T if v != 0)
+            if M % Tmin != 0 or any(v % Tmin != 0 for v in T): continue
             t = T/M
             trans = True
             for atomlist, spinlist in zip(self.basis, spins):
